@@ -267,7 +267,7 @@ def index_num(ex, base: Num, idx, node):
                 cnt = app("count", k)
                 parts.append(("mask", k))
                 out_shape.append(cnt)
-                ex.atom_meta.setdefault(cnt.key, {})["mask"] = comp
+                ex.set_meta(cnt, mask=comp)
                 axis += max(1, len(comp.shape) if comp.shape else 1)
             elif comp.shape == ():
                 parts.append(("at", comp.nf))
@@ -319,13 +319,56 @@ def index_num(ex, base: Num, idx, node):
                 return r
     if len(parts) == 1 and parts[0] == "full":
         return base
+    comp = _compose_index(ex, base, parts, res_shape, node)
+    if comp is not None:
+        return comp
     key = tuple(_pkey(p) for p in parts)
     r = ex.mk("idx", ex.cur_nf(base), key, shape=res_shape, dtype=base.dtype)
     r.meta["index_of"] = base
     r.meta["index"] = idx
-    ex.atom_meta.setdefault(r.nf.key, {}).update({"base": base, "index": idx, "parts": parts})
+    ex.set_meta(r.nf, base=base, index=idx, parts=parts)
     ex.emit("read", node, base=base, index=idx, parts=parts, result=r)
     return r
+
+
+def _compose_index(ex, base: Num, parts, res_shape, node):
+    """Canonical element access: cuts[i][j], cuts[i, j], cuts[:, j][i] and
+    cuts[i][lo:hi][j] all denote idx(col(cuts, j'), at i)."""
+    a = single_atom(ex.cur_nf(base)) if base.nf is not None else None
+    # direct (at i, at j) on a 2-D array
+    if len(parts) == 2 and all(isinstance(p, tuple) and p[0] == "at" for p in parts) and base.shape is not None and len(base.shape) == 2:
+        colv = _column(ex, base, Num(parts[1][1], (), "int"), base.shape[0], node)
+        return index_num(ex, colv, [Num(parts[0][1], (), "int")], node)
+    if a is not None and a.kind == "app" and a.args[0] == "rowslice" and len(parts) == 1 and isinstance(parts[0], tuple) and parts[0][0] == "at":
+        inner_base, i_nf, lo, hi = ex.atom_meta[a.key]["rowslice"]
+        colv = _column(ex, inner_base, Num(lo + parts[0][1], (), "int"), inner_base.shape[0], node)
+        return index_num(ex, colv, [Num(i_nf, (), "int")], node)
+    if a is None or a.kind != "app" or a.args[0] != "idx":
+        return None
+    inner_nf, inner_parts = a.args[1], a.args[2]
+    meta = ex.atom_meta.get(a.key, {})
+    inner_base = meta.get("base")
+    if not isinstance(inner_base, Num):
+        return None
+    if len(parts) != 1 or not isinstance(parts[0], tuple):
+        return None
+    p = parts[0]
+    ib_shape = inner_base.shape
+    # row i of a 2-D array, then element j  -> canonical column form
+    if len(inner_parts) == 1 and inner_parts[0][0] == "at" and ib_shape is not None and len(ib_shape) == 2:
+        i_nf = inner_parts[0][1]
+        if p[0] == "at":
+            colv = _column(ex, inner_base, Num(p[1], (), "int"), ib_shape[0], node)
+            return index_num(ex, colv, [Num(i_nf, (), "int")], node)
+        if p[0] == "slice" and p[3].as_const() == 1:
+            r = ex.mk("rowslice", inner_nf, i_nf, p[1], p[2], shape=res_shape, dtype=base.dtype)
+            ex.set_meta(r.nf, rowslice=(inner_base, i_nf, p[1], p[2]))
+            return r
+    # slice lo:hi of a 1-D array, then element j -> element lo + j
+    if len(inner_parts) == 1 and inner_parts[0][0] == "slice" and inner_parts[0][3].as_const() == 1 and p[0] == "at" and ib_shape is not None and len(ib_shape) == 1:
+        lo = inner_parts[0][1]
+        return index_num(ex, inner_base, [Num(lo + p[1], (), "int")], node)
+    return None
 
 
 def _pkey(p):
@@ -1584,7 +1627,13 @@ def obj_method(ex, obj: ObjV, name, args, kwargs, node):
         new.meta["clone_of"] = obj
         for k, v in obj.fields.items():
             if not k.startswith("_") and not k.endswith("_"):
+                if isinstance(v, Num) and v.nf is not None:
+                    a = single_atom(v.nf)
+                    if a is not None and a.kind == "sym" and str(a.args[0]).endswith(f"({obj.key})"):
+                        v = Num(sym(str(a.args[0])[: -len(obj.key) - 2] + f"({new.key})"), v.shape, v.dtype, v.pytype)
                 new.fields[k] = v
+        new.meta.update({kk: vv for kk, vv in obj.meta.items() if kk in ("ncols",)})
+        new.meta["fitted_on"] = "UNFITTED"
         return new
     if name == "set_params":
         # sktime: set_params(**kw) sets the attributes and re-runs __init__ (reset)
